@@ -632,6 +632,9 @@ pub fn check(prop: &Prop, tier: Tier) -> i32 {
     if printed > 12 {
         println!("  ... and {} more violation signatures (replay files written for all)", printed - 12);
     }
+    if merged.samples.is_empty() {
+        machinery.push("no sample case was recorded by any shard (evidence would be invalid)".into());
+    }
     let wall = t0.elapsed().as_secs_f64();
     let exhaustive = merged.caps_hit.is_empty() && machinery.is_empty();
     let mut cov = Map::new();
